@@ -202,13 +202,10 @@ def staticView (fs : Fs) (v : View) (ae : Option (List Enc)) (slash : Bool) (seg
 
 def endsWithSlash (t : Text) : Bool := t.getLast? = some '/'
 
-/-- the matcher of the route `<prefix>*subpath` (`re.escape(prefix) + '(?P<subpath>.*?)\Z'`, `.` does not match
-a newline): the text after the literal prefix -/
+/-- the matcher of the route `<prefix>*subpath` (`re.escape(prefix) + '(?P<subpath>(?s:.*?))\Z'`: the remainder
+captures whatever is left of the path, a newline included — fc43a19): the text after the literal prefix -/
 def routeRemainder (pfx path : Text) : Option Text :=
-  if pfx.isPrefixOf path then
-    let rest := path.drop pfx.length
-    if rest.contains '\n' then none else some rest
-  else none
+  if pfx.isPrefixOf path then some (path.drop pfx.length) else none
 
 /-- `config.add_static_view(name, root)`: request with raw `PATH_INFO` `wsgi` through the router -/
 def serveSub (fs : Fs) (v : View) (ae : Option (List Enc)) (pfx : Text) (wsgi : Bytes) : Outcome :=
